@@ -172,12 +172,15 @@ YmAddOK(r, a, b) == IF (b > 0 /\ a > YmMax - b) \/ (b < 0 /\ a < (-YmMax) - b) T
 NegI(k) == 0 - k
 TsOfOd(x) == x
 
+FormatOpOf(ty) == CASE ty = "D" -> "D.format" [] ty = "T" -> "T.format" [] ty = "TS" -> "TS.format"
+                     [] ty = "YM" -> "YM.format" [] ty = "DT" -> "DT.format" [] ty = "OD" -> "OD.format"
 RECURSIVE OpOK(_, _, _)
 OpOK(op, a, r) ==
   CASE
   (* ---- Date ---- *)
      op = "D.try_from_ymd" -> LET v == YmdVerdict(a[1], a[2], a[3]) IN
-                              IF v = 0 THEN IsOk(r, DaysFromCivil(a[1], a[2], a[3])) ELSE IsErrK(r, v)
+                              IF v = 0 THEN IsOk(r, DaysFromCivil(a[1], a[2], a[3]))
+                              ELSE r[1] = 1 /\ r[2] \in YmdKinds(a[1], a[2], a[3])      \* any kind that matches a fault
   [] op = "D.is_valid"     -> IsOk(r, B(YmdVerdict(a[1], a[2], a[3]) = 0))
   [] op = "D.try_from_days" -> IF InDateRange(a[1]) THEN IsOk(r, a[1]) ELSE IsErrK(r, EDateOutOfRange)
   [] op = "D.days"         -> IsOk(r, a[1])
@@ -330,6 +333,11 @@ OpOK(op, a, r) ==
   (* ---- pictures and formatting (C19, C04) ---- *)
   [] op = "F.try_new" -> IF Unjudged(a[1]) THEN r[1] \in {0, 1}
                          ELSE IF PicAccepted(a[1]) THEN r[1] = 0 ELSE IsErr(r)
+  \* ONE Formatter object formatting a sequence of values of any types: a = <<picture, << <<type, value>>, ... >> >>.
+  \* A formatter has no memory: every step gives what a fresh formatter gives for that value.
+  [] op = "F.session" ->
+        r[1] = 0 /\ Len(r[2]) = Len(a[2]) /\
+        \A j \in 1..Len(a[2]) : OpOK(FormatOpOf(a[2][j][1]), <<a[2][j][2], a[1]>>, r[2][j])
   [] op \in {"D.format", "T.format", "TS.format", "YM.format", "DT.format", "OD.format"} ->
         IF Unjudged(a[2]) THEN r[1] \in {0, 1}
         ELSE LET e == FormatRes(a[2], TypeOfFormatOp(op), a[1]) IN
